@@ -28,6 +28,7 @@ func TestSim(t *testing.T) {
 	simcore.Main(t, "C07", []simcore.Scenario{
 		{Name: "tsdb-retention", Weight: 3, Run: runRetention},
 		{Name: "measure-retention", Weight: 1, Run: runMeasureRetention},
+		{Name: "disk-pressure-groups", Weight: 1, Run: runGroups},
 	})
 }
 
